@@ -12,7 +12,7 @@ FaultKinds == {"husb-missing", "wife-missing", "chil-missing",           \* refe
                "duplicate-individual", "duplicate-family", "individual-and-family-share-pointer",
                "family-without-members", "source-without-title", "famc-missing", "fams-missing",
                "date-garbage", "date-empty", "date-partial", "date-reversed-range", "date-far-future",
-               "surname-digit", "surname-symbol", "surname-multibyte", "only-faulty-people"}
+               "surname-digit", "surname-symbol", "surname-multibyte", "surname-only-punctuation", "only-faulty-people"}
 
 \* the commands, as the harness names them
 Commands == {"warnings", "publish-show", "publish-hide", "publish-placeholder", "publish-show-jobs4"}
